@@ -97,3 +97,42 @@ Lemma noES_worse : exists sel loss,
   greedy true (mkOpts 2 1 None (1 # 1000) false false false) 2 [0; 1] 1 Lsize (fun _ => []) 5 = Done sel loss
   /\ (1 < loss)%Q.
 Proof. exists [0; 1], 4%Q. split; [vm_compute; reflexivity|reflexivity]. Qed.
+
+(* --- why C20_greedy_total asks for eps_tol > 0: with eps_tol = 0, early stopping and replacement, a loss that keeps
+       decreasing (here 1 / size of the multiset) is followed for ever --- *)
+Definition Linv : list nat -> Q := fun ms => 1 # Pos.of_nat (length ms).
+
+Lemma inv_len_lt m : 1 <= m -> Qle_bool ((1 # Pos.of_nat m) - 0) (1 # Pos.of_nat (m + 1)) = false.
+Proof.
+  intros Hm. destruct (Qle_bool ((1 # Pos.of_nat m) - 0) (1 # Pos.of_nat (m + 1))) eqn:E; [|reflexivity].
+  apply Qle_bool_iff in E. exfalso. revert E.
+  replace (m + 1) with (S m) by lia. rewrite Nat2Pos.inj_succ by lia.
+  unfold Qle, Qminus, Qplus, Qopp. cbn [Qnum Qden]. rewrite Pos2Z.inj_mul, Pos2Z.inj_succ. lia.
+Qed.
+
+Lemma nonterm_eps0_inv bags : forall fuel it sel,
+  memn 0 sel = true -> memn 1 sel = true -> 2 <= length sel ->
+  loop true (mkOpts 3 2 None 0 true true false) 2 Linv bags fuel it sel (1 # Pos.of_nat (length sel)) = OutOfFuel.
+Proof.
+  induction fuel as [|f IH]; intros it sel H0 H1 Hl2; [reflexivity|]. cbn [loop].
+  assert (Hl : (length sel =? 1) = false) by (apply Nat.eqb_neq; lia).
+  assert (Hnu : nunique 2 sel = 2) by (unfold nunique; cbn [seq filter]; rewrite H0, H1; reflexivity).
+  assert (Hc : cont true (mkOpts 3 2 None 0 true true false) 2 sel it = true) by (unfold cont; rewrite Hnu; reflexivity).
+  assert (Hs : step (mkOpts 3 2 None 0 true true false) 2 sel (1 # Pos.of_nat (length sel)) (bags it) (cands 2 Linv sel)
+               = SAdd 0 (1 # Pos.of_nat (length sel + 1))).
+  { unfold step, mask_cands, masked, cands, Linv. cbn [map seq length combine fst snd o_repl o_bag o_es o_eps negb].
+    rewrite Hl, !app_length. cbn [length andb orb nanargmin].
+    assert (Hr : Qle_bool (1 # Pos.of_nat (length sel + 1)) (1 # Pos.of_nat (length sel + 1)) = true)
+      by (apply Qle_bool_iff, Qle_refl).
+    rewrite Hr, Hnu, inv_len_lt by lia. reflexivity. }
+  rewrite Hc, Hs.
+  replace (length sel + 1) with (length (sel ++ [0])) by (rewrite app_length; reflexivity).
+  apply IH.
+  - rewrite memn_app_one, H0. reflexivity.
+  - rewrite memn_app_one, H1. reflexivity.
+  - rewrite app_length. cbn [length]. lia.
+Qed.
+
+Lemma nonterm_eps0 bags : forall fuel,
+  greedy true (mkOpts 3 2 None 0 true true false) 2 [0; 1] (1 # 2) Linv bags fuel = OutOfFuel.
+Proof. intros fuel. unfold greedy, init_sel. cbn [o_kinit firstn]. apply (nonterm_eps0_inv bags fuel 0 [0; 1]); try reflexivity. Qed.
